@@ -960,8 +960,8 @@ func runC09(c *Ctx) int {
 				}
 			}
 		}
-		for sh := 0; sh < c.Pick(6, 200); sh++ {
-			jobs = append(jobs, job{c09Args{Kind: kind, Seed: c.Seed*17 + 1 + int64(sh)*7907, Random: c.Pick(2, 10)}})
+		for sh := 0; sh < c.Pick(6, 60); sh++ {
+			jobs = append(jobs, job{c09Args{Kind: kind, Seed: c.Seed*17 + 1 + int64(sh)*7907, Random: c.Pick(2, 5)}})
 		}
 		jobs = append(jobs, job{c09Args{Kind: kind, Big: true}})
 	}
